@@ -104,6 +104,10 @@ func vcCount(vc string) int {
 		return 3
 	case "long":
 		return 17
+	case "eight":
+		return 8
+	case "sixtyfour":
+		return 64
 	}
 	return 1
 }
